@@ -155,6 +155,12 @@ func c15Exchange(r *Run) {
 	burst := T.Bool("burst", 0.25)
 	if burst {
 		pipeline = nReq
+		if T.Bool("burst.big", 0.6) && e.opts.Capacity >= 4096 {
+			big = true // several large envelopes queued at the same moment is what a burst is for
+			if nReq < 4 {
+				nReq, pipeline = 4, 4
+			}
+		}
 	}
 	r.Config["requests"] = fmt.Sprint(nReq)
 	r.Config["pipeline"] = fmt.Sprint(pipeline)
@@ -164,7 +170,7 @@ func c15Exchange(r *Run) {
 	if big {
 		maxBytes = 120000 // the client does not split envelopes: stay below the v5 segment payload limit
 		if burst {
-			bigChance = 0.8
+			bigChance = 0.95
 		}
 	}
 	var creds *client.AuthCredentials
